@@ -1,3 +1,4 @@
+import TboxModel.C20.Cron
 /-
 C20 — executable model of the alarm module (core Lean only):
   modules/alarm/weekly_alarm.cpp, oneshot_alarm.cpp, workday_alarm.cpp, workday_calendar.cpp
@@ -75,7 +76,7 @@ def nextWorkday (sod : Nat) (cal : Calendar) (workday : Bool) (t : Nat) : Option
 
 /-! ## the alarm base class -/
 
-inductive Cls where | weekly | oneshot | workday
+inductive Cls where | weekly | oneshot | workday | cron
 deriving Repr, DecidableEq
 
 inductive St where | none | inited | running
@@ -86,6 +87,7 @@ structure Alarm where
   sod     : Nat := 0
   mask    : Nat := 0                -- weekly: week_mask_
   wd      : Bool := true            -- workday: workday_
+  expr    : Cron.Expr := ⟨0, 0, 0, 0, 0, 0⟩   -- cron: *sp_cron_expr_ (bit sets of the six fields)
   st      : St := .none
   tzSet   : Bool := false           -- using_independ_timezone_
   off     : Int := 0                -- timezone_offset_seconds_
@@ -115,12 +117,16 @@ def Env.ms (e : Env) : Nat := e.wallMs % 1000
 def addOff (x : Nat) (off : Int) : Nat := (((x : Int) + off) % (U32 : Int)).toNat
 def subOff (x : Nat) (off : Int) : Nat := (((x : Int) - off) % (U32 : Int)).toNat
 
-/-- the virtual `calculateNextLocalTimeSec` -/
+/-- scan bound of the cron reference (days); never reached in practice, see Cron.lean -/
+def cronScan : Nat := 4000
+
+/-- the virtual `calculateNextLocalTimeSec` (the value before it is stored into the uint32_t) -/
 def calcNext (a : Alarm) (cal : Calendar) (t : Nat) : Option Nat :=
   match a.cls with
   | .weekly => nextWeekly a.sod a.mask t
   | .oneshot => some (nextOneshot a.sod t)
   | .workday => nextWorkday a.sod cal a.wd t
+  | .cron => Cron.nextCron a.expr t cronScan      -- cron_next (time_t; activeTimer stores it into a uint32_t)
 
 /-- seconds → milliseconds as the UNPATCHED tree does it:
 `auto remain_usec = (remain_sec * 1000) - (curr_utc_usec / 1000);` with uint32_t operands -/
@@ -139,10 +145,10 @@ def sysOffset : Int := 10800
 def Alarm.offset (a : Alarm) : Int := if a.tzSet then a.off else sysOffset
 
 /-- no uint32 wrap around the local computation that starts at UTC second `start` with
-time-zone offset `off`: local start not before 1970, and 368 days of head-room below 2^32
-on both the local and the UTC side -/
+time-zone offset `off`: local start not before 1970, and 2200 days (six years: a cron alarm may
+be armed up to five calendar years ahead) of head-room below 2^32 on both the local and the UTC side -/
 def InRange (start : Nat) (off : Int) : Prop :=
-  0 ≤ (start : Int) + off ∧ (start : Int) + off + 368 * 86400 ≤ 4294967296 ∧ start + 368 * 86400 ≤ 4294967296
+  0 ≤ (start : Int) + off ∧ (start : Int) + off + 2200 * 86400 ≤ 4294967296 ∧ start + 2200 * 86400 ≤ 4294967296
 
 instance (start : Nat) (off : Int) : Decidable (InRange start off) := by unfold InRange; infer_instance
 
@@ -154,10 +160,21 @@ def Alarm.base (a : Alarm) (e : Env) : Nat := max (max e.sec a.target) a.lastSer
 refresh()/disable() cleared the target — kept for the counterexample theorem -/
 def Alarm.baseAsFound (a : Alarm) (e : Env) : Nat := max e.sec a.target
 
+/-- the next local instant the computation returns lies less than 2200 days after the local start
+(always so for weekly / one-shot / workday alarms — a theorem; for cron alarms it is what ccronexpr's
+year horizon gives in practice, recorded per arm) -/
+def FarOk (a : Alarm) (e : Env) : Prop :=
+  match calcNext a e.cal (addOff (a.base e) a.offset) with
+  | some raw => raw < addOff (a.base e) a.offset + 2200 * 86400
+  | none => True
+
+instance (a : Alarm) (e : Env) : Decidable (FarOk a e) := by
+  unfold FarOk; split <;> infer_instance
+
 /-- the alarm after a successful arm for UTC target `T` with delay `d` (ghost flag updated) -/
 def armed (a : Alarm) (e : Env) (T d : Nat) : Alarm :=
   { a with timer := some (e.monoMs + d), st := .running, target := T,
-           wrapped := a.wrapped || !decide (InRange (a.base e) a.offset) }
+           wrapped := a.wrapped || !decide (InRange (a.base e) a.offset) || !decide (FarOk a e) }
 
 /-- Alarm::activeTimer -/
 def activeTimer (a : Alarm) (e : Env) : Alarm × Bool :=
@@ -167,7 +184,8 @@ def activeTimer (a : Alarm) (e : Env) : Alarm × Bool :=
   let localStart := addOff start off
   match calcNext a e.cal localStart with
   | none => (a, false)
-  | some nl =>
+  | some raw =>
+    let nl := w32 raw                                       -- `uint32_t &next_local_sec`
     let nu := subOff nl off
     let remain := w32 (nu + U32 - cur)                      -- uint32 subtraction
     let delay := delayMs remain e.ms
@@ -175,7 +193,7 @@ def activeTimer (a : Alarm) (e : Env) : Alarm × Bool :=
 
 /-- initialize of the three kinds (`sod` as passed: may be out of range; `mask` = the
 characters of week_mask compared with '1') -/
-def initAlarm (a : Alarm) (sod : Int) (mask : List Bool) (wd : Bool) : Alarm × Bool :=
+def initClassic (a : Alarm) (sod : Int) (mask : List Bool) (wd : Bool) : Alarm × Bool :=
   if a.st = .running then (a, false)
   else if sod < 0 ∨ sod ≥ 86400 then (a, false)
   else if a.cls = .weekly ∧ mask.length ≠ 7 then (a, false)
@@ -183,6 +201,22 @@ def initAlarm (a : Alarm) (sod : Int) (mask : List Bool) (wd : Bool) : Alarm × 
     let m := (mask.zipIdx.filter (·.1)).foldl (fun acc p => acc ||| (1 <<< p.2)) 0
     ({ a with sod := sod.toNat, mask := if a.cls = .weekly then m else a.mask,
               wd := if a.cls = .workday then wd else a.wd, st := .inited }, true)
+
+/-- `initialize(seconds_of_day, …)` on a slot: a CronAlarm has no such method (the harness calls nothing) -/
+def initAlarm (a : Alarm) (sod : Int) (mask : List Bool) (wd : Bool) : Alarm × Bool :=
+  if a.cls = .cron then (a, false) else initClassic a sod mask wd
+
+/-- CronAlarm::initialize (patches/C20-10: the stored expression is replaced only when the new one
+parses); `e` = the parsed expression, none when cron_parse_expr reports an error -/
+def initCron (a : Alarm) (e : Option Cron.Expr) : Alarm × Bool :=
+  if a.cls ≠ .cron then (a, false)
+  else if a.st = .running then (a, false)
+  else match e with
+    | none => (a, false)
+    | some x => ({ a with expr := x, st := .inited }, true)
+
+-- (as found, the stored expression was wiped before parsing: a rejected expression left the alarm
+-- initialised with partly empty field sets and the next enable() overflowed the stack in cron_next)
 
 /-- Alarm::setTimezone -/
 def setTimezone (a : Alarm) (minutes : Int) : Alarm :=
@@ -261,6 +295,7 @@ def tickFuel : Nat := 4
 
 inductive AOp where
   | init (sod : Int) (mask : List Bool) (wd : Bool)
+  | initc (e : Option Cron.Expr)
   | tz (minutes : Int)
   | enable | disable | refresh | cleanup | setCb
   | calChanged           -- the calendar in the step's `Env` differs from before
@@ -276,6 +311,7 @@ deriving Repr, DecidableEq
 
 def astep (a : Alarm) (e : Env) : AOp → Alarm × List Fired
   | .init sod mask wd => ((initAlarm a sod mask wd).1, [])
+  | .initc x => ((initCron a x).1, [])
   | .tz m => (setTimezone a m, [])
   | .enable => ((enable a e).1, [])
   | .disable => ((disable a).1, [])
